@@ -2,10 +2,10 @@
 from .. import common, storemodel, storehist
 from autobean_refactor import token_store as ts
 
-CASES = {'quick': 4000, 'thorough': 250000}
+CASES = {'quick': 4000, 'thorough': 100000}
 GATES = {
     'quick': {'evaluations': 50000, 'ops_multi_block_removed': 1500, 'ops_removed_ge_lf': 3000, 'histories': 3000},
-    'thorough': {'evaluations': 5000000, 'ops_multi_block_removed': 100000, 'histories': 200000},
+    'thorough': {'evaluations': 5000000, 'ops_multi_block_removed': 100000, 'histories': 90000},
 }
 RULE = ('case = one random history (40-200 ops; thorough up to 300) on a raw TokenStore with load factor 2..12 (thorough: ..50) '
         'and initial size 0..7*LF+1, mirrored on a Python list; one evaluation = one M1 comparison (iteration identity, len, '
